@@ -14,6 +14,8 @@ def _cvc5_version():
 
 def write(pid, tier, seed, harness, conds, results, violations, harness_errors, kf_lines, validated, wall, conf=None, corpus_replayed=0):
     import z3
+    probes = [c for c in conds if c.engine == "PROBE"]
+    conds = [c for c in conds if c.engine != "PROBE"]
     rs = [results[c.id] for c in conds]
     samples = []
     for c in conds:
@@ -58,6 +60,8 @@ def write(pid, tier, seed, harness, conds, results, violations, harness_errors, 
                        for c in conds],
         "models_used": sorted({m for c in conds for m in c.models}),
         "unmodelled_library_names_touched": sorted({f for r in rs for f in r.get("fallthrough", [])}),
+        "concrete_probes": [{"id": c.id, "what": c.bounds, "result": "passed" if results[c.id]["status"] == "PROBE" else "FAILED",
+                             "note": "real library stack at a scale outside every symbolic bound; not a solver verdict"} for c in probes],
         "library_calls_lifted_to_real_library": sorted({f for r in rs for f in r.get("lifted", [])}),
         "known_findings_reported": kf_lines,
         "harness_errors": harness_errors,
